@@ -32,6 +32,10 @@ def run(ctx: Ctx) -> None:
     deadown(ctx)
     check_prepare_reschedule(ctx, "R-C12-CLOCK")
     check_prepare_retry(ctx, "R-C12-CLOCK")
+    from .brokers import redis_op_fields, redis_queue_names
+
+    redis_op_fields(ctx, "R-C12-CLOCK")  # the restarted clock (fresh timestamp in the requeued parameters) is really stored
+    redis_queue_names(ctx, "R-C12-RETRIEVABLE")  # dead-lettered expired messages are filed where the DEAD reader of their priority looks
 
 
 def _env(overdue: bool, category: str, extra=None):
